@@ -234,6 +234,39 @@ def impl_checks(ctx):
                 bad("z_factor_DAK evaluated right after a call at a slightly different temperature is not the root of the equation of state for its own temperature",
                     dict(T_r=tr_, p_r=pr0, evaluated_after=dict(T_r_sequence=seq[:seq.index(tr_)][-3:])), dict(Z=z_, root=zref, rel_diff=abs(z_ / zref - 1)))
                 break
+    # ---------------- the same state evaluated first with reduced-precision scalars (a float32 / float16 element of an array) and then
+    # with plain floats, and whole-degree temperature ladders around 0 F (equal floats hash equally across types; -1.0 and -2.0 hash
+    # to the same value in CPython): every double-precision answer is the root for ITS OWN arguments, whatever was asked before
+    from bluebonnet.fluids import gas as gas_h
+    for k_ in range(4 if ctx.quick else 40):
+        T_h = float(int(rng.uniform(60, 400)))
+        p_h = float(int(dom.loguniform(rng, 100, 12000)))
+        tr_h, pr_h = (T_h + 459.67) / (TPC + 459.67), p_h / PPC
+        if not (1.05 <= tr_h <= 3.0 and pr_h <= 30.0):
+            continue
+        for first in (np.float16, np.float32):
+            with warnings.catch_warnings():
+                warnings.simplefilter("ignore")
+                gas_h.z_factor_DAK(first(T_h), p_h, first(TPC) if float(first(TPC)) == TPC else TPC, PPC)
+            z_ = float(gas_h.z_factor_DAK(T_h, p_h, TPC, PPC))
+            zref = dak.z_solve(tr_h, pr_h, False)
+            ev += 1
+            if not dom.relclose(z_, zref, 1e-9):
+                bad("z_factor_DAK called with plain floats right after a call with the same numbers as reduced-precision scalars is not the root of the equation of state",
+                    dict(T=T_h, p=p_h, Tpc=TPC, Ppc=PPC, evaluated_after=f"the same state with the temperature as {first.__name__}"), dict(Z=z_, root=zref, rel_diff=abs(z_ / zref - 1)))
+                break
+    for p_l in ((900.0, 4200.0) if ctx.quick else (300.0, 900.0, 2500.0, 4200.0, 9000.0)):
+        for T_l in list(range(-8, 9)) + list(range(8, -9, -1)):
+            tr_l, pr_l = (T_l + 459.67) / (TPC + 459.67), p_l / PPC
+            if not 1.05 <= tr_l <= 3.0:
+                continue
+            z_ = float(gas_h.z_factor_DAK(T_l, p_l, TPC, PPC))
+            zref = dak.z_solve(tr_l, pr_l, False)
+            ev += 1
+            if not dom.relclose(z_, zref, 1e-9):
+                bad("z_factor_DAK on a ladder of whole-degree temperatures around 0 F is not the root of the equation of state for its own temperature",
+                    dict(T=T_l, p=p_l, Tpc=TPC, Ppc=PPC, ladder="-8 .. 8 F and back, same pressure"), dict(Z=z_, root=zref, rel_diff=abs(z_ / zref - 1)))
+                break
     # ---------------- interleaved evaluations (schedules): (a) deterministic - while one evaluation sits in its root search a
     # second evaluation at another temperature runs to completion (what a thread switch inside the solve does), by wrapping the
     # root finder the module calls; (b) real threads with a short switch interval.  Every value must equal the serial one.
